@@ -158,6 +158,14 @@ def _run_verus_cached(path, text, seed, rlimit, tag, regions=None):
     return r
 
 
+def _atomic_write(path, text):
+    """several check processes may generate the same unit at once (same /repo -> same text): never expose a half-written file"""
+    tmp = f'{path}.tmp.{os.getpid()}'
+    with open(tmp, 'w') as f:
+        f.write(text)
+    os.replace(tmp, path)
+
+
 def run_unit(unit, seed=0, canary=True, rlimit=None):
     """generate + verify one Verus unit (plus its canary twin)."""
     u = UnitRun(unit)
@@ -176,8 +184,7 @@ def run_unit(unit, seed=0, canary=True, rlimit=None):
         return u
     u.g = g
     gpath = os.path.join(BUILD, f'{unit}.rs')
-    with open(gpath, 'w') as f:
-        f.write(g.text)
+    _atomic_write(gpath, g.text)
     u.trusted, forbidden = scan_trusted(g)
     for fb in forbidden:
         u.undecided.append('forbidden construct: ' + fb)
@@ -188,8 +195,7 @@ def run_unit(unit, seed=0, canary=True, rlimit=None):
             try:
                 gc = generate(unit, tpath, REPO, canary=True)
                 cpath = os.path.join(BUILD, f'{unit}__canary.rs')
-                with open(cpath, 'w') as f:
-                    f.write(gc.text)
+                _atomic_write(cpath, gc.text)
                 jobs['canary'] = ex.submit(_run_verus_cached, cpath, gc.text, seed, rlimit, 'canary')
             except Exception as e:
                 u.undecided.append(f'canary generation failed: {e}')
